@@ -1,10 +1,10 @@
 (* Properties/C12.v — Chow-Liu tree -> circuit conversion is exact (proved for every tree shape,
    root, labelling and evidence pattern); smoothness, decomposability and
-   normalisation of the output are proved too (C12_valid); structured decomposability and
-   determinism are certificate-checked per run (C12_structure_partial). *)
+   normalisation of the output are proved too (C12_valid), and so are determinism
+   (C12_deterministic) and structured decomposability (C12_structured). *)
 From Coq Require Import List Arith ZArith Ring Bool.
 From DV Require Import Model.Core Model.Clt Model.Leaves Model.ToPc
-  Proofs.CoreFacts Proofs.CltFacts Proofs.PruneFacts Proofs.ToPcFacts Proofs.ToPcValid.
+  Proofs.CoreFacts Proofs.CltFacts Proofs.PruneFacts Proofs.ToPcFacts Proofs.ToPcValid Proofs.ToPcStruct.
 Import ListNotations.
 
 Section C12.
@@ -46,8 +46,30 @@ Section C12.
       scope_of T (leaf T) res p = scope_of T (leaf T) res n /\ NoDup (scope_of T (leaf T) res n) /\
       (forall v, In v (scope_of T (leaf T) res n) <-> In v (vars T t)).
   Proof. exact (topc_valid T t0 t1 tadd tmul SRth dom). Qed.
+
+  (* deterministic: every sum node of the output has exactly two children and, on every row that observes
+     the sum's variable (0 or 1), one of the two evaluates to zero — at most one child is non-zero on
+     every complete input *)
+  Theorem C12_deterministic : forall t : ctree T, NoDup (vars T t) ->
+      let '(res, _) := topc T t0 t1 t [] in
+      forall j ws, j < length res -> nkind (nth j res (dummy_node T (leaf T))) = KSum ws ->
+        exists v a b, In v (nscope (nth j res (dummy_node T (leaf T)))) /\
+          nkids (nth j res (dummy_node T (leaf T))) = [a; b] /\
+          forall r, (r v = Some 0%Z \/ r v = Some 1%Z) ->
+            val T t0 t1 tadd tmul (leaf T) lval res a r = t0 \/ val T t0 t1 tadd tmul (leaf T) lval res b r = t0.
+  Proof. exact (to_pc_deterministic T t0 t1 tadd tmul SRth). Qed.
+
+  (* structured-decomposable: the scopes of any two product nodes are nested or disjoint (they are the
+     variable sets of subtrees of the one Chow-Liu tree) *)
+  Theorem C12_structured : forall t : ctree T, NoDup (vars T t) ->
+      let '(res, _) := topc T t0 t1 t [] in
+      forall j1 j2, j1 < length res -> j2 < length res -> is_prod T res j1 -> is_prod T res j2 ->
+        lam (nscope (nth j1 res (dummy_node T (leaf T)))) (nscope (nth j2 res (dummy_node T (leaf T)))).
+  Proof. exact (to_pc_structured T t0 t1 tadd tmul SRth). Qed.
 End C12.
 
 Print Assumptions C12_vals.
 Print Assumptions C12_vals_in_context.
 Print Assumptions C12_valid.
+Print Assumptions C12_deterministic.
+Print Assumptions C12_structured.
